@@ -136,7 +136,8 @@ CLAIMED = {
        "limit); filter tables' memusage column; xz returns from coder_set_compression_settings only with usage <= limit or via "
        "the documented soft-limit escape. That estimates bound real allocations is NOT decided. Also (TERMS) the threaded decoder's admission test, cache-trimming tests and memusage report contain every accounting counter they are documented to contain; the file-info decoder passes memlimit minus the memory of the Indexes decoded so far; xz's single-threaded fallback calls hardware_threads_set(1) before re-estimating."
        + " Further rules: direct-mode clear_cache/threads_end before the single-thread decoder allocates; lz decoder reallocates the dictionary only when the size differs; memusage is reported on LZMA_MEMLIMIT_ERROR."
-       + " xz compares the usage with the limit of the current operation mode.",
+       + " xz compares the usage with the limit of the current operation mode."
+       + " (NEEDED) the amount compared with the hard limit before LZMA_MEMLIMIT_ERROR is what memconfig reports; (CLAMP) an order between limit members established by a clamp is re-established at every later store; (STALENEXT) memconfig uses a lazily initialised nested decoder only behind a test of coder->sequence.",
   technique="must-pass-through (edge cut) on finite-domain product graphs, table joins, dominance rules",
   ref="4/C09"),
  "C04": dict(
@@ -148,7 +149,8 @@ CLAIMED = {
        "only with a non-empty buffer); the record allocated for each coder is the one its slot functions cast to; allocation "
        "results are NULL-tested. Absence of ALL memory errors, arithmetic UB and termination are NOT decided. Also (ALLOCSZ) input-controlled element counts in C1 + n*C2 allocation sizes are clamped so the size cannot wrap; the LOCALOWN (no leak on rejected Block Headers) and PROGRESS (worker publishes progress unconditionally) rules shared with C10/C07."
        + " Further rules: BUF_ERROR from lzma_index_hash_decode cannot escape stream_decode/stream_decode_mt (call only with *in_pos < in_size)."
-       + " (WAIT) lost-wake-up rule of C07 on the threaded decoder; dict_get/dict_repeat sibling and DICTFRESH rules.",
+       + " (WAIT) lost-wake-up rule of C07 on the threaded decoder; dict_get/dict_repeat sibling and DICTFRESH rules."
+       + " (ALLOCSZ lower bound) a member used as the element count of a header+array allocation whose element 0 is written at once is never stored as 0.",
   technique="must-availability dataflow on a finite-domain product graph, interprocedural return-code sets with slot typestate, type-agreement joins",
   ref="4/C04"),
  "C11": dict(
@@ -158,7 +160,8 @@ CLAIMED = {
        "(PROG_ERROR rules, sticky STREAM_END, BUF_ERROR only on the second no-progress call, non-fatal set, fatal -> ISEQ_ERROR); "
        "next/avail/total updates are structurally tied to the positions passed to the coder; per-initialiser action sets equal "
        "the documented ones. Does NOT decide that no memory outside the buffers is touched. Also (OUTIDX) the bounds fact *out_pos < out_size is available at every out[*out_pos] store of the streaming encoders."
-       + " Further rules: lzma_index_hash_decode is called only with input available (shared with C04).",
+       + " Further rules: lzma_index_hash_decode is called only with input available (shared with C04)."
+       + " (RESTORE) after a single-call function restored *in_pos/*out_pos the position is not read again (11 sites).",
   technique="exhaustive finite-domain abstract interpretation of the wrapper's CFG vs a protocol table; structural def-use rules",
   ref="4/C11"),
  "C16": dict(
@@ -168,7 +171,8 @@ CLAIMED = {
        "first member, end only with LZMA_FINISH); .lzma header field widths and byte order, picky-only heuristics, EOPM allowed "
        "with known size; auto SEQ_FINISH rules; xz's sniffers use liblzma's magic bytes. Stream Padding rule is decided under "
        "C05. Decoded content is NOT decided. Also (RESUME) the liveness/save-restore rule on the .lzma/.lz/auto decoders; (INITONCE/INITCONS) the format decoder is initialised once and a re-used decoder starts like a fresh one."
-       + " Further rules: auto decoder goes to SEQ_FINISH only for .lzma; picky mode accepts exactly 2^n and 2^n+2^(n-1) (smear distance set); .lz header bytes are counted in member_size before any non-fatal return; (READFIRST) as in C06.",
+       + " Further rules: auto decoder goes to SEQ_FINISH only for .lzma; picky mode accepts exactly 2^n and 2^n+2^(n-1) (smear distance set); .lz header bytes are counted in member_size before any non-fatal return; (READFIRST) as in C06."
+       + " (STALENEXT) as in C09.",
   technique="finite-domain abstract interpretation vs spec tables, effect rules and must-pass rules on the product graph, cross-TU table agreement",
   ref="4/C16"),
  "C03": dict(
@@ -191,7 +195,8 @@ CLAIMED = {
        "CVE-2025-31115 worker rules; pending error only after the queue drained. Found the unlocked progress_in update (fixed). "
        "These are necessary conditions; absence of all races/deadlocks and output equality are NOT decided. Also (STOPACK) the worker never overwrites THR_EXIT; (QUIESCE/INITCONS) re-initialisation stores to worker-visible members only after threads_end and initialises session members on every path; (ACCT) amounts added to mem_in_use equal the per-thread amounts the worker subtracts and those are main-thread-only; (PROGRESS) partial-output enabling and progress publication are controlled by exactly the documented conditions."
        + " Further rules: worker-wait: the main thread waits only while a worker can still make progress; STOPACK/QUIESCE as in C08."
-       + " (WAITARG) states that cannot consume input pass waiting_allowed = true; (OUTQRESET) lzma_outq_init resets read_pos.",
+       + " (WAITARG) states that cannot consume input pass waiting_allowed = true; (OUTQRESET) lzma_outq_init resets read_pos."
+       + " PROT also rejects contradicting lock-free excuses (an 'only this thread writes it' read next to a worker store): one known finding (partial_update).",
   technique="must-lockset dataflow over a finite-domain product graph, protected-field table, must-pass rules",
   ref="4/C07"),
  "C08": dict(
@@ -212,7 +217,8 @@ CLAIMED = {
        "result is dropped; strong-guarantee APIs store nothing caller-visible before failing. Does NOT decide allocation balance "
        "for every failing k at run time. Also (INITORD) members released by end() are initialised before any return after next->coder is published; (CACHEKEY) a size key of a cached allocation is updated only after the allocation succeeded; (LOCALOWN) filter options held in function-local arrays are freed or transferred on every path."
        + " Further rules: (ALIAS) a freed member is cleared or overwritten before any path can free it again, with the callers that clear it listed."
-       + " (SIZEKEY) a member that gives the allocated size of a kept buffer changes only with the buffer (7 pairs discovered from allocation sites); CACHEKEY fail-path: the key is invalidated when the re-allocation fails.",
+       + " (SIZEKEY) a member that gives the allocated size of a kept buffer changes only with the buffer (7 pairs discovered from allocation sites); CACHEKEY fail-path: the key is invalidated when the re-allocation fails."
+       + " (SYNCEND) every mutex/condition variable initialised for a coder is destroyed by its end function or by the joined worker.",
   technique="ownership/effect dataflow over clang CFGs, field-coverage joins over record layouts, unused-result rule on resolved callees",
   ref="4/C10"),
  "C13": dict(
@@ -223,7 +229,8 @@ CLAIMED = {
        "its guard; iterator never keeps the reallocated rightmost group; file_info seek target only decreases under a "
        "dominating bound check. Does NOT decide tree balancing, locate results or size arithmetic. Also (SEEKSTATE) file_info_decode advances coder->sequence after every compound update of its position bookkeeping before it can return LZMA_SEEK_NEEDED; (PROV) Block numbers derive from the Stream's Record count, xz --list reads the Check at total_size - check size."
        + " Further rules: (APPLY) padding found / bytes used in one call are applied to stream_padding etc. on every non-fatal way out; PROV also: number-base, totals line sums lzma_index_file_size."
-       + " (IDXDEC) index_decode ends only through its checks; (TREEWALK) no link member read after index_tree_append; (CURPOS) file_cur_pos advances only by application input.",
+       + " (IDXDEC) index_decode ends only through its checks; (TREEWALK) no link member read after index_tree_append; (CURPOS) file_cur_pos advances only by application input."
+       + " (ITERSTATE) the iterator encodes 'Stream without Record group' with its own method value.",
   technique="field-coverage and effect-ordering dataflow on the product graph, dominator-based guard rules, who-may-write",
   ref="4/C13"),
  "C05": dict(
@@ -243,7 +250,8 @@ CLAIMED = {
        "non-fatal return after the position advanced; (DET) no nondeterminism source reachable from coder code. "
        "Does NOT decide output equality across slicings in general. Also (END) resumable encoders return LZMA_STREAM_END only from their final state; (SLICE) size-mismatch errors of the Block decoder only when the other buffer had room; (INITCONS) a session member initialised on some OK paths of an init function is initialised on all; (INITONCE) coder->sequence is advanced before any non-fatal return that follows a nested coder initialisation."
        + " Further rules: (READFIRST) every member a coding function can read before storing to it is stored by the init function on all OK paths (whole-record, 109 instances); (APPLY) an amount measured in one call is applied to its persistent member on every non-fatal way out; (ACCUM); (PROV) match-finder window geometry keeps after_size + match_len_max bytes ahead; (END/SLICE) Block encoder ends only after the Check was copied."
-       + " (SEQLABEL) as in C03.",
+       + " (SEQLABEL) as in C03."
+       + " (OUTGUARD) a decoder's state loop is not guarded by output space when some state needs none.",
   technique="liveness + reaching definitions over resume labels (clang CFG), finite-domain product-graph dataflow, call-graph reachability",
   ref="4/C06"),
 }
